@@ -7,7 +7,9 @@
     errwrap  {"exc": null | {cls, isException, isValueError, line, column, str}, "version", "path", "lines"}
              -> {"returned": true} | {"raised": cls, "msg": msg};  attr: "missing" | null | int | "other"
     preexpand {"lines": [str]} -> {"ok": [str]}   (`_apply_pre_parsing_expansions`, line lists)
-    numbered {"lines": [str]} -> {"ok": [[text, indentation, comment|null, number]]} | {"err": "IndexError"}
+    numbered {"lines": [str], "k": n?} -> {"ok": [[text, indentation, comment|null]], "tight": bool} | {"err": "IndexError", "tight": bool}
+             with "k": the records of the lines after `scaleLine k`; "tight" = every line satisfies `openerTight` (hypothesis of
+             `numbered_lines_scale_partial`)
 -/
 import NemoVerif.Drive.Common
 import NemoVerif.Models.Layout
@@ -92,10 +94,17 @@ def handle (op : String) (j : Json) : Except String Json := do
   | "numbered" =>
     let la ← (← j.getObjVal? "lines").getArr?
     let lines ← la.toList.mapM fun x => x.getStr?
-    match NumberedLines.numbered (lines.map String.toList) with
-    | .error .indexError => pure (Json.mkObj [("err", .str "IndexError")])
-    | .error .typeError => pure (Json.mkObj [("err", .str "TypeError")])
-    | .ok recs => pure (Json.mkObj [("ok", Json.arr (recs.map fun r =>
+    let ls0 := lines.map String.toList
+    let tight := Json.bool (ls0.all NumberedLines.openerTight)
+    let ls := match j.getObjVal? "k" with
+      | .ok kj => match kj.getNat? with
+        | .ok k => ls0.map (NumberedLines.scaleLine k)
+        | _ => ls0
+      | _ => ls0
+    match NumberedLines.numbered ls with
+    | .error .indexError => pure (Json.mkObj [("err", .str "IndexError"), ("tight", tight)])
+    | .error .typeError => pure (Json.mkObj [("err", .str "TypeError"), ("tight", tight)])
+    | .ok recs => pure (Json.mkObj [("tight", tight), ("ok", Json.arr (recs.map fun r =>
         Json.arr #[safeStr (String.ofList r.text), Json.num (JsonNumber.fromNat r.indentation),
           match r.comment with | none => .null | some c => safeStr (String.ofList c)]).toArray)])
   | "preexpand" =>
